@@ -195,16 +195,7 @@ def r3_table(ctx, F):
     v = vf.VF(hc, inline_depth=0)
     n = len([c for c in live_calls(hc) if c.name == "clear"])
     ctx.check("R3-handle-table", "clear/both", n == 2, "HandleMap::clear clears %d of its 2 tables (handles, cookies)" % n, loc=hc.loc())
-    # release/releasedir route to do_release under the negotiated toggle
-    for nm, tog in (("release", "no_open"), ("releasedir", "no_opendir")):
-        m = [x for x in F.find(name=nm, self_adt=PFS) if x.trait == common.FS_TRAIT][0]
-        v = vf.VF(m, inline_depth=0)
-        dr = [c for c in live_calls(m) if c.name == "do_release"]
-        ok = len(dr) == 1
-        if ok:
-            g = [(vf.render(cond, m, short=True), lab) for (cond, lab, u) in v.guards(dr[0].bb)]
-            ok = any("self.%s" % tog in t and lab == 0 for (t, lab) in g)
-        ctx.check("R3-handle-table", "%s/toggle" % nm, ok, "%s does not release the handle exactly when `%s` is off" % (nm, tog), loc=m.loc())
+    release_toggles(ctx, F, "R3-handle-table")
 
     # directory-position records exist only in opendir mode: where no RELEASEDIR ever arrives (runtime no_opendir, which is not the
     # configured flag: init also sets it when the backend sits below a vfs), nothing would remove them again
@@ -227,6 +218,19 @@ def r3_table(ctx, F):
                           "%s stores a directory-position record without testing the negotiated no_opendir state (guards: %s): with no_opendir in force "
                           "there is no RELEASEDIR to remove it" % (fb.name, [t[:60] for (t, l) in g][:3]), loc=c.loc())
     ctx.check("R3-handle-table", "cookie-record/writers", n >= 1, "no caller of HandleMap::set_cookie found", loc=b.loc())
+
+
+def release_toggles(ctx, F, rule):
+    """release/releasedir route to do_release under their own negotiated toggle (shared with C12)."""
+    for nm, tog in (("release", "no_open"), ("releasedir", "no_opendir")):
+        m = [x for x in F.find(name=nm, self_adt=PFS) if x.trait == common.FS_TRAIT][0]
+        v = vf.VF(m, inline_depth=0)
+        dr = [c for c in live_calls(m) if c.name == "do_release"]
+        ok = len(dr) == 1
+        if ok:
+            g = [(vf.render(cond, m, short=True), lab) for (cond, lab, u) in v.guards(dr[0].bb)]
+            ok = any("self.%s," % tog in t and lab == 0 for (t, lab) in g) and not any("self.no_open" in t and "self.%s," % tog not in t for (t, lab) in g)
+        ctx.check(rule, "%s/toggle" % nm, ok, "%s does not release the handle exactly when `%s` is off" % (nm, tog), loc=m.loc())
 
 
 def r4_temporaries(ctx, F):
